@@ -1,8 +1,8 @@
 #!/bin/bash
 # Runs every claimed check's quick (or $1) tier against /repo, three at a time; prints one line per check.
 tier=${1:-quick}
-cd /verif
+cd "$(dirname "$0")/.."
 ids=$(python3 -c "import json; print(' '.join(c['property_id'] for c in json.load(open('MANIFEST.json'))['checks']))")
-run() { s=$(date +%s); timeout 3000 ./check $1 --tier $tier > /tmp/runall_$1.log 2>&1; rc=$?; e=$(date +%s); echo "$1 exit=$rc $((e-s))s $(grep -c '^VIOLATION' /tmp/runall_$1.log) violations; $(tail -1 /tmp/runall_$1.log | cut -c1-160)"; }
+run() { s=$(date +%s); timeout 6000 ./check $1 --tier $tier > /tmp/runall_$1.log 2>&1; rc=$?; e=$(date +%s); echo "$1 exit=$rc $((e-s))s $(grep -c '^VIOLATION' /tmp/runall_$1.log) violations; $(tail -1 /tmp/runall_$1.log | cut -c1-160)"; }
 export -f run; export tier
 echo $ids | tr ' ' '\n' | xargs -P 3 -I{} bash -c 'run {}'
